@@ -45,7 +45,9 @@ Frame(k) == CASE k \in Decoders -> {"text"}
 \* configured ctid (if one is configured) - SourceMatch.  FLDA-shaped messages from any other source must pass.
 SourceMatch(cfg, hasExt, apid, ctid) == /\ (cfg.apid = "" \/ (hasExt /\ apid = cfg.apid))
                                         /\ (cfg.ctid = "" \/ (hasExt /\ ctid = cfg.ctid))
-FtCfgSpace == [apid : {"none", "match", "other"}, ctid : {"none", "match", "other"}]
+\* save: no | mem (allowSave: data kept in memory) | auto (autoSavePath/autoSaveGlob: completed files are written) - none of
+\* them may influence which messages are forwarded
+FtCfgSpace == [apid : {"none", "match", "other"}, ctid : {"none", "match", "other"}, save : {"no", "mem", "auto"}]
 KindMayDrop(k, flda) == k = "export" \/ (k = "ft_drop" /\ flda)
 
 \* chain level
